@@ -40,6 +40,9 @@ type SessCase struct {
 	Ext       bool       `json:"ext,omitempty"`
 	ResultFmt int16      `json:"result_fmt,omitempty"`
 	Star      bool       `json:"star,omitempty"`
+	// Multi (simple protocol only): the read is the second statement of one Query message, behind a SELECT on the
+	// same table that returns no rows
+	Multi bool `json:"multi,omitempty"`
 }
 
 var sessKinds = []string{pgprog.KPlainBytea, pgprog.KPlainInt, pgprog.KPlainText, pgprog.KEnc, pgprog.KEnc, pgprog.KSearch, pgprog.KMask, pgprog.KMask, pgprog.KTyped}
@@ -55,6 +58,8 @@ func genSessCase(t *rapid.T) SessCase {
 	}
 	if c.Ext {
 		c.ResultFmt = int16(rapid.IntRange(0, 1).Draw(t, "rfmt"))
+	} else {
+		c.Multi = rapid.IntRange(0, 3).Draw(t, "multi") == 0
 	}
 	silent := rapid.IntRange(0, 4).Draw(t, "silent") == 0 // a session without any poison record
 	for ti, tb := range c.Tables {
@@ -216,6 +221,9 @@ func CheckSession(c SessCase) (vs hx.Vs, nontrivial bool, classes []string) {
 		classes = append(classes, fmt.Sprintf("extended/result-format-%d", c.ResultFmt))
 	} else {
 		classes = append(classes, "simple/result-format-0")
+		if c.Multi {
+			classes = append(classes, "simple/second-statement-of-a-multi-statement-query")
+		}
 	}
 	defs := pgprog.Defs(c.Tables)
 	yaml := pgprog.SchemaYAML(c.Tables)
@@ -334,8 +342,19 @@ func CheckSession(c SessCase) (vs hx.Vs, nontrivial bool, classes []string) {
 		if c.Ext {
 			return s.SendExtended(pgsess.Ext{SQL: sql, StmtName: fmt.Sprintf("q%d", ti), ResultFormats: []int16{c.ResultFmt}, DescribePort: true})
 		}
+		if c.Multi && len(tb.Cols) > 0 {
+			sql = "SELECT " + tb.Cols[0].Name + " FROM " + tb.Name + " WHERE " + tb.Cols[0].Name + " = -1; " + sql
+		}
 		return s.SendQuery(sql)
 	}
+	// misses of the multi-statement class carry their own signature
+	multi := func(sig string) string {
+		if c.Multi && !c.Ext {
+			return sig + ":multi-statement"
+		}
+		return sig
+	}
+	missed := func() string { return multi("missed:session") }
 	type result struct {
 		rep *pgsess.Reply
 		err error
@@ -439,7 +458,7 @@ func CheckSession(c SessCase) (vs hx.Vs, nontrivial bool, classes []string) {
 			}
 			cum += fire
 			if c.Mode == "error" {
-				vs.Add("poison-delivered-despite-failing-callback:session", "table %s row %d holds %d poison record cell(s) and reached the client although the callback fails (callback ran %d times)", tb.Name, id, fire, len(snaps))
+				vs.Add(multi("poison-delivered-despite-failing-callback:session"), "table %s row %d holds %d poison record cell(s) and reached the client although the callback fails (callback ran %d times)", tb.Name, id, fire, len(snaps))
 				break
 			}
 			early := 0
@@ -449,7 +468,7 @@ func CheckSession(c SessCase) (vs hx.Vs, nontrivial bool, classes []string) {
 				}
 			}
 			if early < cum {
-				sig := "missed:session"
+				sig := missed()
 				if len(snaps) >= cum {
 					sig = "callback-after-delivery:session"
 				}
@@ -467,7 +486,7 @@ func CheckSession(c SessCase) (vs hx.Vs, nontrivial bool, classes []string) {
 					}
 					for _, rec := range append(append([][]byte{}, pc.r.liveContainers...), pc.r.liveRaw...) {
 						if bytes.Contains(got, rec) || bytes.Contains(got, []byte(hex.EncodeToString(rec))) {
-							vs.Add("poison-delivered-despite-failing-callback:session", "the bytes the client received for table %s contain a poison record although the callback fails", tb.Name)
+							vs.Add(multi("poison-delivered-despite-failing-callback:session"), "the bytes the client received for table %s contain a poison record although the callback fails", tb.Name)
 						}
 					}
 				}
@@ -478,7 +497,7 @@ func CheckSession(c SessCase) (vs hx.Vs, nontrivial bool, classes []string) {
 				mustFire = mustFire || f > 0
 			}
 			if mustFire && len(snaps) == 0 {
-				vs.Add("missed:session", "table %s: a row with a poison record is delivered without callbacks, and the failing callback never ran", tb.Name)
+				vs.Add(missed(), "table %s: a row with a poison record is delivered without callbacks, and the failing callback never ran", tb.Name)
 			}
 			if len(snaps) > 0 {
 				if diedA == nil {
@@ -509,7 +528,7 @@ func CheckSession(c SessCase) (vs hx.Vs, nontrivial bool, classes []string) {
 				need += f
 			}
 			if c.Mode == "count" && len(snaps) < need {
-				vs.Add("missed:session", "table %s: %d poison record cell(s) in delivered rows, callback ran %d times", tb.Name, need, len(snaps))
+				vs.Add(missed(), "table %s: %d poison record cell(s) in delivered rows, callback ran %d times", tb.Name, need, len(snaps))
 			}
 		}
 	}
